@@ -65,7 +65,17 @@ func (w *Walker) loop(s ast.Stmt, in []*State) []*State {
 			if w.A.oneIter && rng != nil {
 				w.A.oneIterN++
 				w.bindLoopVars(rng, table, st, fmt.Sprintf("one%d", w.A.oneIterN))
+				w.loops = append(w.loops, &loopCtx{})
 				out = append(out, w.stmts(body.List, []*State{st})...)
+				lc := w.loops[len(w.loops)-1]
+				w.loops = w.loops[:len(w.loops)-1]
+				// the element is done with: `continue` ends its reading like the end of the body does; a `break` makes
+				// the treatment of an element depend on the ones before it, which this reading cannot express
+				out = append(out, lc.conts...)
+				if len(lc.breaks) > 0 {
+					w.undecided(rng, "break in a loop that is read as a per-element definition")
+					out = append(out, lc.breaks...)
+				}
 				continue
 			}
 			// a range over a short list written out in place (or returned as such by an accessor): one pass per element
